@@ -6,6 +6,7 @@ CONSTANTS
   MaxDesc = 3
   EmMaxDesc = 2
   EmLong = FALSE
+  LongCerts = {"validRSA", "validRSANotYet", "validEC", "malformedBase64", "badDER", "emptyString", "whitespaceOnly", "noX509CertificateElement"}
   Parts = {"idp", "sp"}
   Selection = "fixed"
 INIT Init
